@@ -4,6 +4,8 @@ ONLY property theorems and non-vacuity examples; helper lemmas are in Lemmas/Ref
 -/
 import AskarModel.Model.Spec
 import AskarModel.Lemmas.Refine
+import AskarModel.Model.SqlShape
+import AskarModel.Generated.Stmts
 
 namespace Askar.Store
 
@@ -80,5 +82,12 @@ theorem d7_witness_without_eviction :
         pure (s, h4, db3) : Except Err (Sess × Handle × Db)) = .ok (s, h, db) ∧
       (⟨s.pid, "Q", 2⟩ : Profile) ∈ db.profiles ∧ s.key = 1 :=
   Lemmas.d7_witness_without_eviction
+
+/-- Every statement over `items` in the CURRENT source (re-extracted on every run) is restricted to the
+    session's profile: `profile_id = ?1` is one of its conjuncts (INSERT binds it as the first column). -/
+theorem stmt_profile_scoped :
+    (∀ s ∈ [Sql.Generated.countQuery, Sql.Generated.scanQuery, Sql.Generated.fetchQuery, Sql.Generated.deleteQuery,
+            Sql.Generated.deleteAllQuery, Sql.Generated.updateQuery], s.profileScoped = true) ∧
+    Sql.Generated.insertQuery.cols.head? = some ("profile_id", 1) := by decide
 
 end Askar.Store
